@@ -843,8 +843,18 @@ pub fn load_static_config(server: &mut Server, mut client: OptionalClient, path:
     let config = match path {
         Some(path) if !path.is_empty() => {
             info!("loading static configuration at path {}", path);
-            new_config = Config::load_from_path(path)
-                .unwrap_or_else(|_| panic!("cannot load configuration from '{path}'"));
+            new_config = match Config::load_from_path(path) {
+                Ok(config) => config,
+                Err(error) => {
+                    // a path only ever comes from a client request: refuse it,
+                    // do not take the main process down
+                    client.finish_failure(format!(
+                        "cannot load configuration from '{path}': {error}"
+                    ));
+                    server.cancel_task(task_id);
+                    return;
+                }
+            };
             &new_config
         }
         _ => {
